@@ -31,6 +31,12 @@ COMPONENTS_BY_ENGINE = {
         "stub_or_replica": ["SimStorageEngine (page-cache/durable split) under BufferedRaftLog in c18/c19", "reference LogModel / StoreModel",
                             "vendored tokio (inline blocking), libc clock/getrandom seams"],
     },
+    "mergesim": {
+        "real": ["d-engine-core Raft loop incl. merge_append_entries and the inbound drain, FollowerState, ReplicationHandler::handle_append_entries, "
+                 "BufferedRaftLog + IO task, DefaultCommitHandler, StateMachineWorker (two complete follower nodes wired as in the cluster simulator)"],
+        "stub_or_replica": ["the leaders are the plan: requests are built from generated leader logs and pushed into the follower's event channel "
+                            "as stream_append_entries does", "SimStorageEngine, MemSm, vendored tokio, libc seams"],
+    },
     "smsim": {
         "real": ["d-engine-server FileStateMachine and RocksDBStateMachine (apply_chunk, WAL, checkpoint, recovery, get/get_multi/scan_prefix, "
                  "lease_background_cleanup, start/stop/Drop) on a real directory in /dev/shm", "d-engine-server TtlLease",
@@ -49,6 +55,10 @@ ASSUMPTIONS_BY_ENGINE = {
     ],
     "logsim": ["single caller task plus the IO task on one thread; interleavings at await points only",
                "File/RocksDB engines see graceful close or hook-captured directory images, not arbitrary power loss"],
+    "mergesim": ["acknowledgements are compared by kind and by whether the reported match position covers the sender's own request: one "
+                 "response is fanned out to all merged senders by design, so exact equality of last_match is not demanded (DESIGN.md C36)",
+                 "request sequences are those a correct set of leaders can emit (per term one leader with one log); network duplication and "
+                 "loss of requests are included, corruption is not"],
     "smsim": ["process-crash semantics: every completed write() survives the kill; power loss (lost page cache) is not simulated",
               "one applier at a time (as in the node: a single commit-handler task calls apply_chunk)",
               "TTL deadlines within 1 s of an observation are not judged"],
@@ -141,6 +151,13 @@ PROPS = {
     "C33": {"batches": [B("snapshot_exposed", "snapshot", 200, 2000, masks=["batch_promote"]),
                         B("general_exposed", "general", 80, 800, masks=["batch_promote"])]},
     "C35": {"batches": [B("routing", "routing", 120, 1200), B("general", "general", 80, 800)]},
+    "C36": {"engine": "mergesim", "batches": [B("merge_equiv", "merge", 700, 12000, masks=[])],
+            "rule": "one evaluation = one generated sequence of AppendEntries requests (chains, heartbeats, overlapping resends, exact "
+                    "duplicates, requests that skip ahead, back-offs, 1-3 successive leaders/terms, rising commit indexes) delivered to two "
+                    "identical real Raft followers: in bursts (random burst partition; the whole burst is queued before the loop runs, so "
+                    "merge_append_entries sees it) and one at a time with quiescence in between; max_merge_entries and max_batch_size drawn "
+                    "per run; distinct = distinct (sequence, partition) hash; non-trivial = at least one adjacent pair in a burst satisfied "
+                    "the merge rule and at least one request was acknowledged with success"},
     "C37": {"batches": [B("general", "general", 160, 1600), B("durability", "durability", 60, 600)],
             "assumptions": ["the schedule dimension adds nothing to this conservation check; it is evaluated as a side oracle of cluster runs"]},
 }
